@@ -16,7 +16,7 @@ def run(ctx):
         rule=("non-trivial: at least 2 instances started and min(tokens, ammo) >= 2; distinct = distinct case lines "
               "(pool configuration: shared/per-instance, discard_overflow, profile, ammo bound, startup profile, shot duration, schedule start offset)"),
         key_fn=key_fn,
-        bridge_files=["Properties/Links.v"],  # composition theorems L1-L5 (proofs in Proofs/Link*.v), counted as extra obligations
+        bridge_files=["Properties/Links.v", "Properties/Links_conc.v"],  # composition theorems L1-L5 (proofs in Proofs/Link*.v), counted as extra obligations
         trusted=[
             "extraction: ExtrOcamlBasic only; OCaml driver ocaml/C03/main.ml + ocaml/common/conv.ml",
             "correspondence harness harness/cmd/hC03: real engine.Engine, real schedules behind a recording wrapper, counting provider, recording gun/aggregator; "
